@@ -143,6 +143,25 @@ def run_real_x(tool, kind, name, argv, ord_):
     return "OK " + fmt_call_x(D.RECORD[0], fc)
 
 
+def mask_x(real, model):
+    """like `mask` of C17_dispatch: the positions the model marks `?` (values it keeps opaque: random vectors, graphs
+    built from the formula's size) are not compared — except that an opaque value is never `None`: a real `None` there
+    stays visible (`tseitin`'s charge vector of the null graph)"""
+    r, m = real.split(" "), model.split(" ")
+    if len(r) != len(m):
+        return real
+    out = []
+    for a, b in zip(r, m):
+        if b == "?" and a != "N":
+            out.append("?")
+        elif "=" in a and "=" in b and b.split("=", 1)[1] == "?" and a.split("=", 1)[0] == b.split("=", 1)[0] \
+                and a.split("=", 1)[1] != "N":
+            out.append(b)
+        else:
+            out.append(a)
+    return " ".join(out)
+
+
 MODEL = {}
 
 
@@ -440,7 +459,10 @@ def build(suite, info):
 
     def impl():
         r = run_real_x(tool, kind, name, argv, ord_)
-        return D.mask(r, model_answer(rq))
+        m = model_answer(rq).split(" ## ")
+        if len(m) != 2:
+            return r + " ## " + r
+        return mask_x(r, m[0]) + " ## " + mask_x(r, m[1])   # regenerated tables ## documented tables
     oracle = None
     canon = info.get("canonical")
     if canon is not None:
@@ -494,7 +516,7 @@ def cases(ctx):
     for kind in (0, 1):
         out.append(build("dx_supported", {"kind": kind}))
     for kind, name, argv in CORPUS:
-        for ord_ in ((0, 4) if name == "tseitin" else (4,)):
+        for ord_ in ((0, 1, 4) if name == "tseitin" else (4,)):
             out.append(build("dx_corpus", {"tool": "cnfgen", "kind": kind, "name": name, "argv": argv, "ord": ord_}))
     crng = common.sub_rng(seed, "C17x", "classify")
     for (kind, name), parser in sorted(parsers.items()):
@@ -564,8 +586,70 @@ def cases(ctx):
 
 
 def search(ctx, case):
-    """a disagreement on a variant whose canonical spelling the real tool treats differently is a failing input of the
-    property (the oracle reports it); otherwise the disagreement is a gap of the model"""
+    """when the real tool no longer builds what the DOCUMENTED tables say for this command line, the command line is a
+    failing input of the property; a variant that the real tool treats unlike its canonical spelling is one too (the
+    oracle reports it); a difference with the regenerated tables only is a gap of the translator / interpreter"""
+    if case.suite in ("dx_supported", "dx_classify"):
+        return None
     if case.oracle is not None:
-        return case.oracle()
+        r = case.oracle()
+        if r is not None:
+            return r
+    i = case.info
+    r = against_documented(i["tool"], i["kind"], i["name"], [str(a) for a in i["argv"]], int(i.get("ord", 4)))
+    if r is not None:
+        return r
+    # this line is not a failing input: look at the other lines of the same sub-command (once per sub-command)
+    return neighbourhood(ctx, i["tool"], i["kind"], i["name"])
+
+
+def against_documented(tool, kind, name, argv, ord_):
+    real = run_real_x(tool, kind, name, argv, ord_)
+    model = common.run_driver([dispatchx_req(tool, kind, name, ord_, argv)])[0].split(" ## ")
+    if len(model) == 2 and model[1] != mask_x(real, model[1]):
+        return {"command_line": [tool, name] + list(argv), "order_of_graph_files": ord_, "built": real,
+                "documented": model[1]}
+    return None
+
+
+NEIGHBOURHOOD = {}
+
+
+def neighbourhood(ctx, tool, kind, name):
+    key = (tool, kind, name)
+    if key in NEIGHBOURHOOD:
+        return NEIGHBOURHOOD[key]
+    NEIGHBOURHOOD[key] = None
+    if not PARSERS:
+        PARSERS.update(D.subparsers())
+    parser = PARSERS.get((kind, name))
+    if parser is None:
+        return None
+    rng = common.sub_rng(ctx.get("seed", 0), "C17x-search", kind, name)
+    lines = [a for (k, n, a) in CORPUS if (k, n) == (kind, name)]
+    lines += flagful_bases(kind, name, parser, rng)
+    if any(k == "compose" for k, _ in D.shape(parser)[0]):
+        lines += D.compose_argvs(kind, name, parser, rng, "quick")[:150]
+    else:
+        lines += D.argvs_for(kind, name, parser, rng, "quick")[:150]
+    for argv in lines:
+        argv = [str(t) for t in argv]
+        if any("\n" in t or t == "-T" for t in argv):
+            continue
+        for ord_ in ((0, 1, 2, 4) if name == "tseitin" else (4,)):
+            r = against_documented(tool, kind, name, argv, ord_)
+            if r is not None:
+                NEIGHBOURHOOD[key] = r
+                return r
+    return None
+
+
+def search_global(ctx):
+    """a proof obligation no longer checks: every sub-command's targeted lines against the documented tables"""
+    if not PARSERS:
+        PARSERS.update(D.subparsers())
+    for (kind, name) in sorted(PARSERS):
+        r = neighbourhood(ctx, "cnfgen", kind, name)
+        if r is not None:
+            return r
     return None
